@@ -151,6 +151,7 @@ inductive Answer
   | ver (v : Nat)
   | unknownId
   | panic
+  | flag (warned : Bool)      -- BlockChain.unknownRulesWarned after the call
   deriving DecidableEq, Repr
 
 /-- what the Spec answers, given the deployment table. -/
